@@ -80,7 +80,7 @@ NUMERIC_ONLY = {'starmap(+)', 'flat_map', 'stddev', 'formal.stddev(reduce)', 'to
                 'filter(odd)', 'filter(truthy int)', 'scan(sum)', 'assert_(>=0)',
                 # their branch lambdas compute on numbers: fed with tuples / lists they raise, and behind a cut (take(0), first) only the multiplexed
                 # mode still evaluates them (that is known finding KF5, not a new failure)
-                'tee_map(filter,map;combine_latest)', 'tee_map(map,map;merge)', 'tee_map(map->None for odd,filter>1;zip)', 'tee_map(map->None for even,map;combine_latest)'}
+                'tee_map(count,max;zip)', 'tee_map(filter,map;combine_latest)', 'tee_map(map,map;merge)', 'tee_map(map->None for odd,filter>1;zip)', 'tee_map(map->None for even,map;combine_latest)'}
 
 
 def compatible(names):
@@ -130,6 +130,14 @@ def check_c01(opts):
                     fails.append({'pipeline': names, 'input': items, 'problem': 'the operator raises on a plain non-empty group', 'plain': str(plain)[:200]})
                 continue        # the plain pipeline itself raises on this input (e.g. first after a filter that keeps nothing): outside the property
             if mux != exp:
+                cut = next((k for k, n_ in enumerate(names) if n_.startswith('take(') or n_ == 'first'), None)
+                if cut is not None and cut > 0 and isinstance(mux, tuple) and mux and mux[0] == 'ERROR':
+                    # the pipeline cuts a group short and the multiplexed run ends with an exception: when the stages BEFORE the cut raise on a
+                    # plain group that is read to its end, the exception comes from behind the cut -- take / first do not end a multiplexed key
+                    # (known finding KF5, listed with its own two cases below); it is not a new failure of this pipeline
+                    pre = [run_plain(g, *[f() for _, f in pipe[:cut]], ops.to_list()) for g in groups]
+                    if any(isinstance(p_, tuple) and p_ and p_[0] == 'ERROR' for p_ in pre):
+                        continue
                 fails.append({'pipeline': names, 'input': items, 'key': 'i % 3', 'expected_per_group(plain)': exp, 'got(mux)': mux})
     # take / first on a multiplexed key do not end the key: what lies behind the cut is still evaluated upstream
     def to_int(s):
